@@ -113,6 +113,10 @@ class Harness:
             if algo == "mcmc_saem":
                 kws["n_iter"] = 6
                 kws["n_burn_in_iter"] = 2
+            if algo in ("mean_posterior", "mode_posterior", "mcmc_saem") and self.rng.random() < 0.5:
+                # nested settings that the algorithm completes for itself (annealing.n_iter is derived from the fraction):
+                # the caller's object must not receive the derived values
+                kws["annealing"] = dict(do_annealing=True, n_plateau=2, initial_temperature=3.0)
             with core.quiet():
                 self.settings_cache[k] = self.E.AlgorithmSettings(algo, **kws)
         return self.settings_cache[k]
